@@ -31,21 +31,6 @@ to the first deme construction on every CFG path of DemeTree.__init__, and the a
 ASSUMPTIONS = ["numpy/scipy/cma are deterministic functions of their seeds and of numpy's global stream", "scipy.stats.<dist>.rvs without random_state draws from numpy's global stream"]
 
 SEED_SOURCES = ("random_seed", "_random_seed")
-# tabled entropy / clock sites: (function short name, callee) -> reason
-ENTROPY_TABLE = {
-    ("Individual.__init__", "uuid.uuid4"): "identity tag of an individual; never compared, ordered or used to derive genomes",
-    ("StatsGatheringProblem.evaluate", "time.perf_counter"): "evaluation duration statistics only",
-    ("unique_file_name", "datetime.datetime.now"): "output file name of a plot",
-    ("unique_file_name", "datetime.datetime.now.strftime"): "output file name of a plot",
-}
-# where the fields defined from entropy/clock may be read
-ENTROPY_FIELDS = {
-    "uuid": {"Individual.clone"},
-    "parents": set(),
-    "_durations": {"StatsGatheringProblem.durations", "StatsGatheringProblem.duration_stats", "StatsGatheringProblem.evaluate"},
-}
-
-
 def _mentions_seed(e: ast.AST) -> bool:
     for x in ast.walk(e):
         if isinstance(x, ast.Attribute) and x.attr in SEED_SOURCES:
@@ -324,7 +309,11 @@ def r14_3(ctx: Ctx):
     for g, cs, e in _classified_sites(ctx):
         if e[0] == "SEED" and g is not f:
             ok = cs.node.args and _mentions_seed(cs.node.args[0]) and not _tainted_nondeterministic(ctx, g, cs.node.args[0])
-            obs.append(ctx.ob("R14.3", g, cs.node, status=VIOLATION, detail=f"`{norm(cs.node)}` reseeds a global stream outside DemeTree.__init__" + ("" if ok else " with a value not derived from random_seed")))
+            # a further reseeding from the configured seed is deterministic (it may hurt the search, not reproducibility);
+            # reseeding from nothing / a clock / None makes the rest of the run depend on the operating system's entropy
+            arg = cs.node.args[0] if cs.node.args else None
+            definite = arg is None or (isinstance(arg, ast.Constant) and arg.value is None) or bool(_tainted_nondeterministic(ctx, g, arg))
+            obs.append(ctx.ob("R14.3", g, cs.node, status=OK if ok else VIOLATION if definite else INCONCLUSIVE, detail=f"`{norm(cs.node)}` reseeds a global stream from the configured seed (deterministic)" if ok else f"`{norm(cs.node)}` reseeds a global stream outside DemeTree.__init__ with a value not derived from random_seed"))
     return obs
 
 
@@ -356,39 +345,197 @@ def r14_4(ctx: Ctx):
     return obs
 
 
+def _run_reachable(ctx: Ctx) -> set[str]:
+    """qualnames of the functions a run can execute: closure of the resolved call graph from DemeTree.__init__ / run /
+    run_step / run_metaepoch / run_sprout and minimize()."""
+    roots = [ctx.prog.own_method("DemeTree", n) for n in ("__init__", "run", "run_step", "run_metaepoch", "run_sprout")]
+    try:
+        roots.append(ctx.prog.func("pyhms.hms", "minimize"))
+    except Exception:  # pragma: no cover
+        pass
+    seen = {r.qualname for r in roots}
+    work = list(roots)
+    while work:
+        f = work.pop()
+        for cs in ctx.res.callsites(f):
+            for t in cs.targets:
+                if t.qualname not in seen:
+                    seen.add(t.qualname)
+                    work.append(t)
+    return seen
+
+
+_LOG_NAMES = ("log", "info", "debug", "warning", "error", "print", "bind", "msg")
+_CONTAINER_ADD = ("append", "extend", "add", "insert", "appendleft", "update")
+
+
+def _taint_in_function(ctx, f, sources):
+    """Follow values that come from `sources` (call nodes) inside f.  -> (fields: attr names of `self`/objects the value is
+    stored in, bad: [(node, why)] flows into decisions, unknown: [(node, why)], returned: bool)."""
+    from ..core import parents_map
+
+    par = parents_map(f.node)
+    tainted_names: set[str] = set()
+    fields, bad, unknown = set(), [], []
+    returned = False
+
+    def is_tainted(e):
+        return any(x in sources for x in ast.walk(e)) or any(isinstance(x, ast.Name) and x.id in tainted_names and isinstance(x.ctx, ast.Load) for x in ast.walk(e))
+
+    changed = True
+    rounds = 0
+    while changed and rounds < 6:
+        changed = False
+        rounds += 1
+        for n in body_walk(f.node):
+            if isinstance(n, (ast.Assign, ast.AnnAssign, ast.AugAssign)) and getattr(n, "value", None) is not None and is_tainted(n.value):
+                for t in (n.targets if isinstance(n, ast.Assign) else [n.target]):
+                    for x in ast.walk(t):
+                        if isinstance(x, ast.Name) and x.id not in tainted_names:
+                            tainted_names.add(x.id)
+                            changed = True
+    for n in body_walk(f.node):
+        if isinstance(n, (ast.Assign, ast.AnnAssign, ast.AugAssign)) and getattr(n, "value", None) is not None and is_tainted(n.value):
+            for t in (n.targets if isinstance(n, ast.Assign) else [n.target]):
+                if isinstance(t, ast.Attribute):
+                    fields.add(t.attr)
+                elif isinstance(t, ast.Subscript):
+                    h = t.value
+                    while isinstance(h, ast.Subscript):
+                        h = h.value
+                    if isinstance(h, ast.Attribute):
+                        fields.add(h.attr)
+        elif isinstance(n, ast.Return) and n.value is not None and is_tainted(n.value):
+            returned = True
+        elif isinstance(n, (ast.If, ast.While, ast.IfExp, ast.Assert)) and is_tainted(n.test):
+            bad.append((n, f"`{norm(n.test)[:60]}` decides on a value read from the clock / an entropy source"))
+        elif isinstance(n, ast.Compare) and is_tainted(n) and not isinstance(par.get(id(n)), (ast.If, ast.While, ast.IfExp, ast.Assert)):
+            bad.append((n, f"`{norm(n)[:60]}` compares a value read from the clock / an entropy source"))
+        elif isinstance(n, ast.Call) and n not in sources:
+            targs = [a for a in list(n.args) + [k.value for k in n.keywords] if is_tainted(a)]
+            if not targs:
+                continue
+            fn = norm(n.func)
+            last = fn.split(".")[-1]
+            if isinstance(n.func, ast.Attribute) and last in _CONTAINER_ADD and isinstance(n.func.value, ast.Attribute):
+                fields.add(n.func.value.attr)
+            elif any(k in last.lower() for k in _LOG_NAMES) or fn.split(".")[0] in ("logging", "logger") or (isinstance(n.func, ast.Attribute) and "logger" in norm(n.func.value).lower()):
+                pass
+            elif last in ("str", "repr", "format", "strftime", "isoformat", "float", "int", "round", "abs", "sub", "timedelta", "total_seconds"):
+                # a pure conversion: the result is as tainted as the argument; handled when it is assigned / returned / tested
+                q = par.get(id(n))
+                if isinstance(q, ast.Return):
+                    returned = True
+            elif any(k in ("seed", "random_state") for k in [kk.arg for kk in n.keywords if is_tainted(kk.value)]) or last in ("seed", "default_rng", "RandomState", "Random"):
+                bad.append((n, f"`{norm(n)[:60]}` seeds a generator from the clock / an entropy source"))
+            else:
+                kwn = [kk.arg for kk in n.keywords if kk.arg and is_tainted(kk.value)]
+                # constructor / call storing the value under a keyword: the field of that name carries it
+                if kwn and not [a for a in n.args if is_tainted(a)]:
+                    fields.update(kwn)
+                else:
+                    unknown.append((n, f"a value read from the clock / an entropy source is handed to `{fn[:40]}`"))
+    return fields, bad, unknown, returned
+
+
 def r14_5(ctx: Ctx):
-    """R14.5 entropy / clock / identity sources only at tabled sites; the fields they define are not read by the search."""
+    """R14.5 what is read from the clock, an entropy source or object identity never reaches a decision of a run: inside the
+    functions a run can execute (call-graph closure of DemeTree.__init__ / run / minimize) such a value may only be stored in a
+    field, logged or counted, and the fields that hold it are, inside a run, only copied into the same field or measured with
+    len(); code outside a run (plots, statistics accessors) may do what it wants with them."""
+    from ..core import parents_map
+
     obs = []
+    reach = _run_reachable(ctx)
+    sites_by_f = {}
+    n_sites = 0
     for f, cs, e in _classified_sites(ctx):
         if e[0] not in ("ENTROPY", "CLOCK"):
             continue
-        key = (f.short if f.parent is None else f.short, e[1])
-        key2 = (f.name, e[1])
-        reason = ENTROPY_TABLE.get(key) or ENTROPY_TABLE.get(key2)
-        obs.append(ctx.ob("R14.5", f, cs.node, status=OK if reason else VIOLATION, detail=f"tabled: {reason}" if reason else f"`{norm(cs.node)[:60]}` reads {e[0].lower()} ({e[1]}) in {f.short}: its value differs between two runs of the same seeded configuration"))
+        n_sites += 1
+        if f.qualname not in reach and not (f.parent is not None and f.parent.qualname in reach):
+            obs.append(ctx.ob("R14.5", f, cs.node, detail=f"`{norm(cs.node)[:50]}` ({e[1]}) is outside every function a run executes"))
+            continue
+        sites_by_f.setdefault(f.qualname, (f, []))[1].append((cs.node, e))
+    tainted_fields: dict[str, str] = {}
+    for q, (f, lst) in sites_by_f.items():
+        fields, bad, unknown, returned = _taint_in_function(ctx, f, {c for c, _ in lst})
+        for fld in fields:
+            tainted_fields.setdefault(fld, f.short)
+        node0, e0 = lst[0]
+        if bad:
+            obs.append(ctx.ob("R14.5", f, bad[0][0], status=VIOLATION, detail=f"{f.short}: {bad[0][1]} ({e0[1]}): two runs of the same seeded configuration take different decisions", construct=f"{f.short}:{e0[1]}"))
+        elif returned:
+            # the value leaves through the return: every call site inside a run is a new source
+            callers = [cs for cs in ctx.res.callers_of(f) if cs.caller.qualname in reach and isinstance(cs.node, ast.Call)]
+            st, why = OK, ""
+            for cs in callers:
+                f2, b2, u2, r2 = _taint_in_function(ctx, cs.caller, {cs.node})
+                for fld in f2:
+                    tainted_fields.setdefault(fld, cs.caller.short)
+                if b2:
+                    st, why = VIOLATION, f"{cs.caller.short}: {b2[0][1]} (through {f.short})"
+                    break
+                if u2 or r2:
+                    st, why = INCONCLUSIVE, f"{cs.caller.short} passes on the value {f.short} read from {e0[1]}"
+            obs.append(ctx.ob("R14.5", f, node0, status=st, detail=f"{f.short} returns a value read from {e0[1]}; inside a run it is only stored / logged" if st == OK else why, construct=f"{f.short}:{e0[1]}"))
+        elif unknown:
+            obs.append(ctx.ob("R14.5", f, unknown[0][0], status=INCONCLUSIVE, detail=f"{f.short}: {unknown[0][1]} ({e0[1]})", construct=f"{f.short}:{e0[1]}"))
+        else:
+            obs.append(ctx.ob("R14.5", f, node0, detail=f"{f.short}: the value read from {e0[1]} is only stored in {sorted(fields) or 'locals'} / logged", construct=f"{f.short}:{e0[1]}"))
     for f in ctx.prog.all_functions():
         if f.name == "<module>":
             continue
         for c in body_walk(f.node):
             if isinstance(c, ast.Call) and isinstance(c.func, ast.Name) and c.func.id in ("id", "hash") and c.func.id not in ctx.res.env(f):
-                obs.append(ctx.ob("R14.5", f, c, status=VIOLATION, detail=f"`{norm(c)[:50]}` depends on object identity / hash seed"))
+                obs.append(ctx.ob("R14.5", f, c, status=VIOLATION if (f.qualname in reach) else OK, detail=f"`{norm(c)[:50]}` depends on object identity / hash seed" + ("" if f.qualname in reach else " (outside every function a run executes)")))
+    # readers of the fields that hold such values
+    for f in ctx.prog.all_functions():
+        if f.name == "<module>" or not tainted_fields:
+            continue
+        inside = f.qualname in reach or (f.parent is not None and f.parent.qualname in reach)
+        par = None
         for a in body_walk(f.node):
-            if isinstance(a, ast.Attribute) and isinstance(a.ctx, ast.Load) and a.attr in ENTROPY_FIELDS:
-                bt = ctx.res.type_of(a.value, f)
-                owners = [t[1].rsplit(".", 1)[-1] for t in ([] if bt is None else ([bt] if bt[0] != "union" else list(bt[1]))) if t[0] == "inst"]
-                rel = {"uuid": "Individual", "parents": "Individual", "_durations": "StatsGatheringProblem"}[a.attr]
-                if owners and rel not in owners:
-                    continue
-                if not owners and a.attr in ("parents",):
-                    continue
-                ok = f.short in ENTROPY_FIELDS[a.attr]
-                if not ok and a.attr == "_durations":
-                    from ..core import parents_map
-
-                    par = parents_map(f.node).get(id(a))
-                    if isinstance(par, ast.Call) and norm(par.func) in ("len", "list") and par.args and par.args[0] is a:
-                        ok = True  # how many timings there are does not depend on the clock
-                obs.append(ctx.ob("R14.5", f, a, status=OK if ok else VIOLATION, detail=f"`{a.attr}` read at a tabled site" if ok else f"{f.short} reads `{norm(a)}`, a field defined from entropy/clock: its value is not reproducible and must not influence the run"))
+            if not (isinstance(a, ast.Attribute) and isinstance(a.ctx, ast.Load) and a.attr in tainted_fields):
+                continue
+            bt = ctx.res.type_of(a.value, f)
+            owners = [t[1].rsplit(".", 1)[-1] for t in ([] if bt is None else ([bt] if bt[0] != "union" else list(bt[1]))) if t[0] == "inst"]
+            home = tainted_fields[a.attr].split(".")[0]
+            if owners and home not in owners:
+                continue
+            if not owners and a.attr not in ("uuid", "_durations"):
+                continue  # an attribute of the same name on an object of unknown type
+            if not inside:
+                obs.append(ctx.ob("R14.5", f, a, detail=f"{f.short} reads `{a.attr}` outside every function a run executes (statistics / reporting)"))
+                continue
+            if par is None:
+                par = parents_map(f.node)
+            q = par.get(id(a))
+            ok = False
+            if isinstance(q, ast.Attribute) and q.attr in _CONTAINER_ADD and isinstance(par.get(id(q)), ast.Call):
+                ok = True  # the receiver of the store itself
+            elif isinstance(q, ast.Call) and norm(q.func) in ("len",) and q.args and q.args[0] is a:
+                ok = True  # how many there are does not depend on the clock
+            elif isinstance(q, ast.keyword) and q.arg == a.attr:
+                ok = True  # copied into the same field of another object
+            elif isinstance(q, ast.Assign) and all(isinstance(t, ast.Attribute) and t.attr == a.attr for t in q.targets):
+                ok = True
+            gq = par.get(id(q)) if q is not None else None
+            decides = isinstance(q, (ast.Compare, ast.If, ast.While, ast.IfExp)) or isinstance(gq, (ast.Compare,)) or (isinstance(q, ast.Call) and norm(q.func).split(".")[-1] in ("sorted", "sort", "max", "min", "seed"))
+            # inside an ordering key (`key=lambda x: x.uuid.int`), a comparison or a seed a few levels up
+            up, hops = q, 0
+            while up is not None and hops < 6 and not decides:
+                if isinstance(up, ast.Compare) or (isinstance(up, ast.Call) and norm(up.func).split(".")[-1] in ("sorted", "sort", "max", "min", "argsort", "seed", "default_rng", "RandomState")):
+                    decides = True
+                if isinstance(up, ast.stmt):
+                    if isinstance(up, (ast.If, ast.While, ast.Assert)) and any(x is a for x in ast.walk(up.test)):
+                        decides = True
+                    break
+                up = par.get(id(up))
+                hops += 1
+            obs.append(ctx.ob("R14.5", f, a, status=OK if ok else VIOLATION if decides else INCONCLUSIVE, detail=f"`{a.attr}` is only copied / counted in {f.short}" if ok else f"{f.short}, which a run executes, reads `{norm(a)}`, a field that holds a value from the clock / an entropy source" + (": it takes part in a comparison, so two runs of one seeded configuration can differ" if decides else "")))
+    if n_sites < 2:
+        raise AnalysisError(f"only {n_sites} clock / entropy call sites found (uuid4 in Individual, perf_counter in StatsGatheringProblem confirmed by hand)")
     return obs
 
 
@@ -582,6 +729,21 @@ def r14_8(ctx: Ctx):
     if n_cls < 15:
         raise AnalysisError(f"only {n_cls} stop-condition / sprout classes scanned")
     obs.append(ctx.ob("R14.8", None, None, subject="pyhms", loc="-", detail=f"{n_funcs} functions scanned for memoised generator factories, {n_cls} configuration-held classes for accumulating containers", construct="scan"))
+    # (b+) a stop condition that keeps its verdict in the condition object answers the next run from the previous one
+    from .c05 import latched_verdicts
+
+    for o in latched_verdicts(ctx, "R14.8"):
+        if o.status != OK:
+            obs.append(o)
+    # (b'') containers defined in a class body (or a mutable default argument) and written through `self`: one object for every
+    # instance of the process - what the first tree counted, the second tree continues
+    from .c02 import r02_11
+
+    for o in r02_11(ctx, every_module=True):
+        if o.status != OK:
+            o.rule = "R14.8"
+            o.detail = o.detail.split(" (values stored")[0] + ": the state of an earlier tree in the process leaks into the next run with the same seed"
+            obs.append(o)
     # (b') module-level containers kept by reference and written through an instance
     from .c02 import shared_module_state
 
